@@ -415,9 +415,23 @@ func main() {
 		"metadata symbol values stay within architectural limits (<= 512 VGPRs, <= 102 SGPRs)",
 	}
 	if r.Replay != "" {
+		if data, err := os.ReadFile(r.Replay); err == nil && bytes.Contains(data, []byte(`"launch_sequence"`)) {
+			var f struct {
+				Case uploadCase `json:"case"`
+			}
+			if json.Unmarshal(data, &f) == nil {
+				if sig, msg := runUpload(f.Case); sig != "" {
+					fmt.Printf("VIOLATION property=C13 replay=%s\n  signature: %s\n  %s\n", r.Replay, sig, msg)
+					os.Exit(1)
+				}
+				fmt.Println("replay: no violation")
+				os.Exit(0)
+			}
+		}
 		replay(r, pool)
 		return
 	}
+	uploadPass(r)
 	prints := map[uint64]struct{}{}
 	loads, kernels, files, ambiguous := 0, 0, 0, 0
 	fam := map[string]int{}
